@@ -420,7 +420,9 @@ func (app *App) addRoute(method string, route *Route, isMounted ...bool) {
 	l := len(app.stack[m])
 	if l > 0 && app.stack[m][l-1].Path == route.Path && route.use == app.stack[m][l-1].use && !route.mount && !app.stack[m][l-1].mount {
 		preRoute := app.stack[m][l-1]
-		preRoute.Handlers = append(preRoute.Handlers, route.Handlers...)
+		// the handler slice is shared by the per-method copies of one registration:
+		// cap it so that append copies instead of writing into the shared backing array
+		preRoute.Handlers = append(preRoute.Handlers[:len(preRoute.Handlers):len(preRoute.Handlers)], route.Handlers...)
 	} else {
 		// Increment global route position
 		route.pos = atomic.AddUint32(&app.routesCount, 1)
